@@ -561,7 +561,9 @@ static void discardOutput(const char*, int) {}
 static void discardFlush() {}
 
 static void asyncScenario(int calls) {
-  for (int it = 0; it < g_iters; ++it) {
+  // every iteration writes ~9 MB through the back-end thread (the buffers are 4 MB: this is what it takes to
+  // exercise the buffer swap in append()); more than a few iterations only adds disk traffic
+  for (int it = 0; it < g_iters && it < 6; ++it) {
     AsyncLogging log("race_async", 64 * 1000 * 1000, 1);
     log.start();
     std::string line(1000, 'x');
